@@ -115,6 +115,9 @@ def gen_cases(tier: str, seed: int):
     n = 12 if tier == "quick" else 150
     # two fixed shapes on every run: the process ends (in every exit mode / at every kill point) inside an open transaction
     # that changed rows and metadata; once with the connection used as a context manager
+    # the cheap in-memory control runs come first, so that a time budget only ever trims the generated histories
+    for i in range(4 if tier == "quick" else 24):
+        yield {"kind": "in_memory", "seed": r.randrange(1 << 30)}
     yield {"kind": "two_sessions"}
     for second in ("insert_more", "new_table"):
         for keep in ("exception-kept", "retry-in-handler", "connection-kept", "nothing-kept"):
@@ -151,8 +154,6 @@ def gen_cases(tier: str, seed: int):
         yield {"kind": "history", "history": open_txn, "stride": 3 if tier == "quick" else 1, "offset": int(wc), "with_conn": wc}
     for i in range(n):
         yield {"kind": "history", "history": gen_history(r), "stride": 3 if tier == "quick" else 1, "offset": i % 3, "with_conn": i % 2 == 1}
-    for i in range(4 if tier == "quick" else 24):
-        yield {"kind": "in_memory", "seed": r.randrange(1 << 30)}
 
 
 # ---------------------------------------------------------------------------
